@@ -111,6 +111,21 @@ def coq_bool(b):
     return "true" if b else "false"
 
 
+def coq_list_def(name, typ, terms, per=1500, sep=None):
+    """Definition <name> : list <typ> := ... split into pieces of `per` terms (one huge list literal overflows coqc's parser stack)"""
+    if len(terms) <= per:
+        body = coq_list(terms)
+        if sep: body = body.replace(sep[0], sep[1])
+        return "Definition %s : list (%s) :=\n %s.\n" % (name, typ, body)
+    out, names = "", []
+    for i in range(0, len(terms), per):
+        n = "%s_%d" % (name, i // per); names.append(n)
+        body = coq_list(terms[i:i + per])
+        if sep: body = body.replace(sep[0], sep[1])
+        out += "Definition %s : list (%s) :=\n %s.\n" % (n, typ, body)
+    return out + "Definition %s : list (%s) := (%s)%%list.\n" % (name, typ, " ++ ".join(names))
+
+
 def coq_list(items):
     return "[" + "; ".join(items) + "]"
 
